@@ -4,7 +4,7 @@ import itertools
 ID = 'C08'
 LEVEL = 'exploration'
 QUICK_S = 40
-THOROUGH_S = 420
+THOROUGH_S = 300
 EXHAUSTIVE_CLAIM = True
 TECHNIQUE = 'runtime monitoring: scope provider wrapper imposing a postponement schedule + call log; order oracle on the resolved lists; exhaustive small-scope schedules'
 RULE = ('exhaustive: lists of 1..4 (quick) / 1..6 (thorough) references x every schedule assigning each reference 0..2 (quick) '
@@ -238,7 +238,7 @@ def run(ctx):
     for i in ctx.indices(len(sp), 'exhaustive', exhaustive=True):
         run_exh(ctx, sp, i)
     ctx.deadline = ctx.t0 + total
-    for i in ctx.indices(6000 if ctx.tier == 'quick' else 60000, 'random'):
+    for i in ctx.indices(6000 if ctx.tier == 'quick' else 10 ** 7, 'random'):
         run_rand(ctx, i)
 
 
